@@ -492,6 +492,16 @@ pub fn gen_c03(rng: &mut Rng, count: usize, thorough: bool) -> Vec<Case> {
             out.push(apply("nested-count", r, data.clone()));
         }
     }
+    // operand lists of several hundred: 256 operands are not 0 operands
+    for name in all_ops() {
+        for n in [255usize, 256, 257, 258, 259, 512, 65538] {
+            if n > 1000 && name != "==" {
+                continue;
+            }
+            let a: Vec<Value> = (0..n).map(|i| if name == "var" { s("a") } else { int((i % 2) as i64) }).collect();
+            out.push(apply(&format!("long:{}:{}", name, n), op(name, a), data.clone()));
+        }
+    }
     // a surplus operand is rejected whatever it is - null, false, 0, "" and [] included
     for name in all_ops() {
         for n in 1..=4usize {
@@ -807,6 +817,29 @@ pub fn gen_c06(rng: &mut Rng, count: usize, _thorough: bool) -> Vec<Case> {
         out.push(apply(&format!("or/computed-{}", tag), op("or", vec![r.clone(), s("next")]), json!({})));
         out.push(apply(&format!("if/computed-{}", tag), op("if", vec![r.clone(), s("T"), s("F")]), json!({})));
     }
+    // a condition is judged by the value its expression has - however that value is found
+    {
+        let d = json!({"word": "hi", "zero": "0", "items": [0, [0]], "tail": [1, 0], "empty": ["", []], "x": 0, "y": [], "z": "a"});
+        for cond in [var("word.0"), var("zero.0"), var("items.-1"), var("tail.-1"), var("items.0"), var("empty.-1"), var("empty.0"), var("word.5"), var("items.1.0"),
+                     op("var", vec![s("nope"), int(0)]), op("var", vec![s("nope"), s("0")]), op("var", vec![s("word.-1")])] {
+            out.push(apply("cond/path", op("if", vec![cond.clone(), s("T"), s("F")]), d.clone()));
+            out.push(apply("cond/path", op("if", vec![int(0), s("A"), cond.clone(), s("T"), s("F")]), d.clone()));
+            out.push(apply("cond/path", op("?:", vec![cond.clone(), s("T"), s("F")]), d.clone()));
+            out.push(apply("cond/path", op("!!", vec![cond.clone()]), d.clone()));
+            out.push(apply("cond/path", op("and", vec![cond.clone(), s("next")]), d.clone()));
+            out.push(apply("cond/path", op("or", vec![cond.clone(), s("next")]), d.clone()));
+            out.push(apply("cond/path", op("filter", vec![json!([1]), op("var", vec![s("nope"), int(0)])]), d.clone()));
+        }
+        // members of a collection written in the rule are evaluated first, then judged
+        for q in ["some", "all", "none", "filter"] {
+            for m in [var("x"), var("y"), var("z"), op("if", vec![var("x"), int(10), int(0)]), op("and", vec![int(1), var("y")]), op("map", vec![var("y"), int(1)]), op("+", vec![var("x"), int(0)])] {
+                if q != "filter" {
+                    out.push(apply("member/written", op(q, vec![Value::Array(vec![m.clone()]), var("")]), d.clone()));
+                    out.push(apply("member/written", op(q, vec![Value::Array(vec![m.clone(), int(5)]), op(">", vec![var(""), int(0)])]), d.clone()));
+                }
+            }
+        }
+    }
     // !! always returns a boolean, ! its negation - also when the operand is an operation that
     // returns one of its own operands
     for v in corner_values() {
@@ -932,9 +965,13 @@ pub fn gen_c07(rng: &mut Rng, count: usize, thorough: bool) -> Vec<Case> {
         (json!({}), s("[object Object]")), (json!([1]), int(1)), (json!([[1]]), int(1)), (json!([1, 2]), s("1,2")),
         (fl(1.0), s("1.0")), (fl(1e21), s("1e+21")), (fl(1e21), json!([fl(1e21)])), (json!([fl(0.1)]), s("0.1")),
     ];
+    let mut extra = extra;
+    extra.extend([(json!([1, []]), int(1)), (json!([1, []]), s("1,")), (json!([[], []]), s(",")), (json!([[], []]), int(0)), (json!([[], []]), json!(false)), (json!([[[]], "x"]), s(",x")),
+                  (json!([1, [], 2]), s("1,,2")), (json!([1, [], 2]), s("1,2")), (json!([[]]), s("")), (json!([[]]), int(0)), (json!([null, 1]), s(",1")), (json!([[null]]), s(""))]);
+    extra.extend([(Value::Array(vec![fl(-0.0)]), s("-0.0")), (Value::Array(vec![fl(0.0), int(1)]), s("0.0,1")), (Value::Array(vec![fl(0.0)]), s("0")), (Value::Array(vec![fl(-0.0)]), s("0")),
+                  (Value::Array(vec![fl(1.0)]), s("1")), (Value::Array(vec![fl(1.0)]), s("1.0")), (Value::Array(vec![int(0)]), s("0.0"))]);
     // a number inside an array meets a string through its JSON text - at every size where that
     // text changes shape
-    let mut extra = extra;
     for f in [1e15, 1e16, 1.5e17, 1e19, 123456789012345680000.0, 9.999999999999999e20, 1e21, 1e22, 1e-4, 1e-5, 1e-6, 1e-7, 1.234e-7, -1.5e20, 12345678901234567.0] {
         let text = serde_json::to_string(&fl(f)).unwrap();
         let plain = format!("{}", f);
@@ -1066,6 +1103,8 @@ pub fn gen_c10(rng: &mut Rng, count: usize, _thorough: bool) -> Vec<Case> {
         ("/", vec![int(0), fl(-1.0)]), ("%", vec![fl(-5.5), int(2)]), ("%", vec![fl(5.5), int(-2)]), ("%", vec![fl(1e300), fl(7.0)]),
         ("%", vec![fl(5e-324), fl(3e-324)]), ("+", vec![fl(f64::MAX), fl(f64::MAX)]), ("*", vec![fl(1e-320), fl(1e-10)]),
         ("+", vec![s("Infinity")]), ("-", vec![s("Infinity"), int(1)]), ("min", vec![]), ("+", vec![]), ("*", vec![]),
+        ("%", vec![int(9007199254740993), int(2)]), ("%", vec![uint(u64::MAX), int(10)]), ("%", vec![int(i64::MAX), int(i64::MAX - 1)]), ("%", vec![int(1234567890123456789), int(1000)]),
+        ("max", vec![s("10"), s("9")]), ("min", vec![s("10"), s("9")]), ("max", vec![json!([10]), json!([9])]), ("max", vec![s("-1"), s("-2")]), ("max", vec![fl(2.0), int(1)]), ("min", vec![fl(1e2), int(250), s("300")]),
         ("+", vec![s("12px"), json!([3])]), ("-", vec![json!([]), json!(true)]), ("+", vec![json!(true)]), ("max", vec![json!([[2]]), int(1)]),
     ];
     for (o, a) in regress {
@@ -1252,6 +1291,9 @@ pub fn gen_c12(rng: &mut Rng, count: usize, _thorough: bool) -> Vec<Case> {
         (json!({"missing_some": [1, ["a", 1.5]]}), json!({"a": 1})), (json!({"missing_some": [2, ["a", 1.5]]}), json!({"a": 1})),
         (json!({"missing": ["a.0.0", "a.0.-1", "a.0.1", "a.3", "a.0.0.0.0"]}), json!({"a": "xyz"})), (json!({"missing_some": [1, ["q", "a.0.-1"]]}), json!({"a": "xyz"})),
         (json!({"missing": ["1.0", "1.1", "0.0.0"]}), s("hey")), (json!({"missing": ["a", "", null, 0]}), json!(5)), (json!({"missing": [""]}), Value::Null),
+        (json!({"missing_some": [1, ["address", "address2"]]}), json!({"address2": "Flat 3", "city": "Leeds"})), (json!({"missing_some": [3, ["address", "address2", "city"]]}), json!({"address2": "x", "city": "y"})),
+        (json!({"missing_some": [1, ["a.b", "a.bc"]]}), json!({"a": {"bc": 1}})), (json!({"missing_some": [1, ["13", "130"]]}), json!({"130": 1})), (json!({"missing": ["address", "address2", "addr"]}), json!({"address2": 1})),
+        (json!({"missing": ["items.-1", "items.5", "items.-4"]}), json!({"items": [10, 20, 30]})), (json!({"missing_some": [1, ["items.-1", "total"]]}), json!({"items": [10, 20, 30]})),
         (json!({"missing_some": [1, ["", "a"]]}), json!({})), (json!({"missing_some": [2, ["a", "", "b"]]}), json!({"b": 1})), (json!({"missing": ["user.name", "a.b"]}), json!({"user.name": 1, "a": {"b": 2}})),
     ];
     for (r, d) in regress {
@@ -1432,6 +1474,18 @@ pub fn gen_c14(rng: &mut Rng, count: usize, _thorough: bool) -> Vec<Case> {
     for (r, d) in regress {
         out.push(apply("regress", r, d));
     }
+    // members written as expressions are evaluated against the outer data - whatever operator they use
+    {
+        let d = json!({"vip": true, "no": false, "xs": [1, 2], "n": 3});
+        for q in ["all", "some", "none"] {
+            for m in [op("if", vec![var("vip"), int(10), int(0)]), op("if", vec![var("no"), int(1), int(0)]), op("?:", vec![var("vip"), int(0), int(1)]), op("and", vec![var("vip"), var("n")]),
+                      op("or", vec![var("no"), int(0)]), op("map", vec![var("xs"), int(0)]), op("filter", vec![var("xs"), json!(false)]), op("reduce", vec![var("xs"), op("+", vec![var("current"), var("accumulator")]), int(0)]),
+                      op("some", vec![var("xs"), json!(true)]), op("none", vec![var("xs"), json!(true)]), op("missing", vec![s("n")]), op("cat", vec![s("")])] {
+                out.push(apply("written-member", op(q, vec![Value::Array(vec![m.clone(), int(5)]), op("!!", vec![var("")])]), d.clone()));
+                out.push(apply("written-member", op(q, vec![Value::Array(vec![m.clone()]), var("")]), d.clone()));
+            }
+        }
+    }
     // every corner of the truthiness table decides a one-element collection on its own
     for v in corner_values() {
         for q in ["all", "some", "none"] {
@@ -1504,6 +1558,10 @@ pub fn gen_c15(rng: &mut Rng, count: usize, _thorough: bool) -> Vec<Case> {
     ];
     for r in regress {
         out.push(apply("regress", r, Value::Null));
+    }
+    for (n, h) in [(uint(u64::MAX), json!([9223372036854775808u64])), (uint(10000000000000000000), json!([1, 12000000000000000000u64])), (uint(u64::MAX), json!([18446744073709551615u64])),
+                   (uint(u64::MAX), Value::Array(vec![fl(18446744073709551616.0)])), (int(9007199254740993), json!([9007199254740992u64])), (json!({"k": [18446744073709551615u64]}), json!([{"k": [9223372036854775808u64]}]))] {
+        out.push(apply("big-integers", op("in", vec![var("n"), var("h")]), json!({"n": n, "h": h})));
     }
     // a haystack written in the rule is a literal: members that look like operations are members
     for (r, d) in [
